@@ -842,4 +842,581 @@ theorem consList_root (f : Fields) (k : Tree) (ks : List Tree) :
     have := (List.nodup_append.1 hn).2.2 [] hp [] (by simp)
     exact this rfl
 
+
+/-! ### small list facts -/
+
+theorem inj_of_nodup_map {α β} (f : α → β) : ∀ (l : List α), (l.map f).Nodup → ∀ a ∈ l, ∀ b ∈ l, f a = f b → a = b
+  | [], _, a, ha, _, _, _ => by simp at ha
+  | x :: l, h, a, ha, b, hb, e => by
+    rw [List.map_cons, List.nodup_cons] at h
+    rcases List.mem_cons.1 ha with ha' | ha'
+    · rcases List.mem_cons.1 hb with hb' | hb'
+      · rw [ha', hb']
+      · exact absurd (List.mem_map.2 ⟨b, hb', by rw [← e, ha']⟩) h.1
+    · rcases List.mem_cons.1 hb with hb' | hb'
+      · exact absurd (List.mem_map.2 ⟨a, ha', by rw [e, hb']⟩) h.1
+      · exact inj_of_nodup_map f l h.2 a ha' b hb' e
+
+theorem nodup_map_of_inj {α β} (f : α → β) (hf : ∀ a b, f a = f b → a = b) (l : List α) (h : l.Nodup) : (l.map f).Nodup := by
+  rw [List.Nodup, List.pairwise_map]
+  exact h.imp (fun hab e => hab (hf _ _ e))
+
+theorem flatMap_nodup_disjoint {α β} (f : α → List β) : ∀ (l : List α) (i j : Nat) (a b : α) (x : β),
+    (l.flatMap f).Nodup → l[i]? = some a → l[j]? = some b → i < j → x ∈ f a → x ∈ f b → False
+  | [], _, _, _, _, _, _, hi, _, _, _, _ => by simp at hi
+  | c :: l, 0, j + 1, a, b, x, h, hi, hj, _, ha, hb => by
+    simp only [List.getElem?_cons_zero, Option.some.injEq] at hi
+    subst hi
+    simp only [List.getElem?_cons_succ] at hj
+    rw [List.flatMap_cons, List.nodup_append] at h
+    exact h.2.2 x ha x (List.mem_flatMap.2 ⟨b, List.mem_of_getElem? hj, hb⟩) rfl
+  | c :: l, i + 1, j + 1, a, b, x, h, hi, hj, hij, ha, hb => by
+    simp only [List.getElem?_cons_succ] at hi hj
+    rw [List.flatMap_cons, List.nodup_append] at h
+    exact flatMap_nodup_disjoint f l i j a b x h.2.1 hi hj (by omega) ha hb
+
+theorem find?_unique {α} (pr : α → Bool) : ∀ (l : List α) (a : α), a ∈ l → pr a = true → (∀ b ∈ l, pr b = true → b = a) →
+    l.find? pr = some a
+  | [], a, h, _, _ => by simp at h
+  | x :: l, a, h, hp, hu => by
+    by_cases hx : pr x = true
+    · rw [List.find?_cons_of_pos hx, hu x (by simp) hx]
+    · rw [List.find?_cons_of_neg hx]
+      rcases List.mem_cons.1 h with rfl | h
+      · exact absurd hp hx
+      · exact find?_unique pr l a h hp (fun b hb => hu b (by simp [hb]))
+
+/-! ### identifiers -/
+
+theorem leaf_num (t : Tree) (p : Path) (n : Nat) (f : Fields) (h : get? t p = some (leaf n f)) : numOf t p = n := by
+  unfold numOf exportNum; rw [h]; rfl
+
+theorem isCons_of_get? (t : Tree) (p : Path) (f : Fields) (k : Tree) (ks : List Tree)
+    (h : get? t p = some (node f (k :: ks))) : isCons t p = true := by
+  unfold isCons; rw [h]
+
+theorem get?_of_isCons (t : Tree) (p : Path) (h : isCons t p = true) : ∃ f k ks, get? t p = some (node f (k :: ks)) := by
+  unfold isCons at h
+  split at h
+  · rename_i f k ks hg; exact ⟨f, k, ks, hg⟩
+  · cases h
+
+theorem cons_num (t : Tree) (p : Path) (f : Fields) (k : Tree) (ks : List Tree)
+    (h : get? t p = some (node f (k :: ks))) : (p, numOf t p) ∈ exportNumbering t := by
+  have hc : p ∈ TT.Props.C19.constituents t :=
+    List.mem_filter.2 ⟨mem_paths_of_get? p t _ h, isCons_of_get? t p f k ks h⟩
+  have hm := (TT.Props.C19.numbering_paths_perm t).symm.subset hc
+  obtain ⟨x, hx, hxp⟩ := List.mem_map.1 hm
+  have hs : ((exportNumbering t).find? (fun y => decide (y.1 = p))).isSome = true := by
+    rw [List.find?_isSome]; exact ⟨x, hx, by simpa using hxp⟩
+  obtain ⟨y, hy⟩ := Option.isSome_iff_exists.1 hs
+  have hy1 : y.1 = p := by simpa using List.find?_some hy
+  have hy2 := List.mem_of_find?_eq_some hy
+  have : numOf t p = y.2 := by
+    unfold numOf exportNum; rw [h]; simp only [hy, Option.map_some, Option.getD_some]
+  rw [this, ← hy1]
+  exact hy2
+
+theorem mem_leafNums_of_get? (t : Tree) (p : Path) (n : Nat) (f : Fields) (h : get? t p = some (leaf n f)) :
+    n ∈ t.leafNums := by
+  have := TT.Lemmas.Trans.leafNums_sublist_get? p t _ h
+  rw [leafNums_leaf] at this
+  exact this.subset (by simp)
+
+theorem leaf_path_unique : ∀ (p q : Path) (t : Tree) (n : Nat) (f g : Fields), t.leafNums.Nodup →
+    get? t p = some (leaf n f) → get? t q = some (leaf n g) → p = q
+  | [], [], _, _, _, _, _, _, _ => rfl
+  | [], j :: q, t, n, f, g, _, hp, hq => by
+    simp only [get?, Option.some.injEq] at hp; subst hp; simp [get?] at hq
+  | i :: p, [], t, n, f, g, _, hp, hq => by
+    simp only [get?, Option.some.injEq] at hq; subst hq; simp [get?] at hp
+  | i :: p, j :: q, .leaf _ _, n, f, g, _, hp, _ => by simp [get?] at hp
+  | i :: p, j :: q, .node f0 ks, n, f, g, hn, hp, hq => by
+    simp only [get?] at hp hq
+    cases hi : ks[i]? with
+    | none => simp [hi] at hp
+    | some k =>
+      cases hj : ks[j]? with
+      | none => simp [hj] at hq
+      | some k' =>
+        simp only [hi] at hp
+        simp only [hj] at hq
+        rw [leafNums_node] at hn
+        have m1 := mem_leafNums_of_get? k p n f hp
+        have m2 := mem_leafNums_of_get? k' q n g hq
+        rcases Nat.lt_trichotomy i j with hlt | heq | hgt
+        · exact (flatMap_nodup_disjoint leafNums ks i j k k' n hn hi hj hlt m1 m2).elim
+        · subst heq
+          rw [hi] at hj
+          simp only [Option.some.injEq] at hj
+          subst hj
+          have hk : k.leafNums.Nodup :=
+            (leafNums_sublist_of_mem f0 ks k (List.mem_of_getElem? hi)).nodup (by rw [leafNums_node]; exact hn)
+          rw [leaf_path_unique p q k n f g hk hp hq]
+        · exact (flatMap_nodup_disjoint leafNums ks j i k' k n hn hj hi hgt m2 m1).elim
+
+theorem WF_leaf_range (t : Tree) (hwf : WF t = true) (n : Nat) (h : n ∈ t.leafNums) : 1 ≤ n ∧ n ≤ t.leafNums.length := by
+  have hy := TT.Props.C19.yield_of_WF t hwf
+  have := (mem_yield t n).2 h
+  rw [hy, List.mem_range'_1] at this
+  omega
+
+/-- what a valid path addresses, with the shape of its identifier -/
+theorem node_kinds (t : Tree) (hwf : WF t = true) (p : Path) (s : Tree) (h : get? t p = some s) :
+    (∃ n f, s = leaf n f ∧ numOf t p = n ∧ 1 ≤ n ∧ n ≤ t.leafNums.length) ∨
+    (∃ f k ks, s = node f (k :: ks) ∧ (p, numOf t p) ∈ exportNumbering t ∧ (p = [] ↔ numOf t p = 0) ∧
+      (numOf t p = 0 ∨ 500 ≤ numOf t p)) := by
+  cases s with
+  | leaf n f =>
+    left
+    have := WF_leaf_range t hwf n (mem_leafNums_of_get? t p n f h)
+    exact ⟨n, f, rfl, leaf_num t p n f h, this.1, this.2⟩
+  | node f ks =>
+    right
+    cases ks with
+    | nil =>
+      have := noEmpty_get? p t _ (WF_noEmpty t hwf) h
+      simp [noEmpty] at this
+    | cons k ks =>
+      have hm := cons_num t p f k ks h
+      refine ⟨f, k, ks, rfl, hm, TT.Props.C19.numbering_root_zero t _ hm, ?_⟩
+      obtain ⟨_, _, hv⟩ := TT.Props.C19.numbering_values t
+      rcases hv _ (List.mem_map.2 ⟨_, hm, rfl⟩) with h0 | h5
+      · exact Or.inl h0
+      · exact Or.inr h5.1
+
+/-- identifiers are pairwise different when there are fewer than 500 tokens -/
+theorem numOf_inj (t : Tree) (hwf : WF t = true) (hlen : t.leafNums.length < 500) (p q : Path) (s s' : Tree)
+    (hp : get? t p = some s) (hq : get? t q = some s') (e : numOf t p = numOf t q) : p = q := by
+  rcases node_kinds t hwf p s hp with ⟨n, f, rfl, h1, h2, h3⟩ | ⟨f, k, ks, rfl, h1, h2, h3⟩ <;>
+    rcases node_kinds t hwf q s' hq with ⟨n', f', rfl, h1', h2', h3'⟩ | ⟨f', k', ks', rfl, h1', h2', h3'⟩
+  · rw [h1, h1'] at e
+    subst e
+    exact leaf_path_unique p q t n f f' (WF_nodup t hwf) hp hq
+  · omega
+  · omega
+  · have hnd := TT.Props.C19.numbering_values_nodup t (WF_root t hwf).1
+    have := inj_of_nodup_map (·.2) _ hnd _ h1 _ h1' e
+    exact (Prod.mk.inj this).1
+
+/-! ### the fuel suffices: the height is bounded by the number of constituents -/
+
+theorem heightL_attained : ∀ ks : List Tree, ks ≠ [] → ∃ (i : Nat) (k : Tree), ks[i]? = some k ∧ heightL ks = height k
+  | [], h => absurd rfl h
+  | [k], _ => ⟨0, k, rfl, by simp [heightL]⟩
+  | k :: k' :: ks, _ => by
+    obtain ⟨i, x, hi, hx⟩ := heightL_attained (k' :: ks) (by simp)
+    rw [heightL]
+    by_cases h : heightL (k' :: ks) ≤ height k
+    · exact ⟨0, k, rfl, by omega⟩
+    · exact ⟨i + 1, x, by simpa using hi, by omega⟩
+
+theorem isCons_cons (f : Fields) (ks : List Tree) (i : Nat) (k : Tree) (q : Path) (h : ks[i]? = some k) :
+    isCons (node f ks) (i :: q) = isCons k q := by
+  unfold isCons; simp only [get?, h]
+
+theorem height_chain (s : Tree) : s.noEmpty = true →
+    ∃ L : List Path, L.Nodup ∧ L.length = height s ∧ ∀ q ∈ L, isCons s q = true := by
+  induction s using tree_ind with
+  | hl n f => intro _; exact ⟨[], List.nodup_nil, rfl, by simp⟩
+  | hn f ks ih =>
+    intro hne
+    rw [noEmpty_node] at hne
+    have hks : ks ≠ [] := hne.1
+    obtain ⟨i, k, hi, hk⟩ := heightL_attained ks hks
+    obtain ⟨L, hL1, hL2, hL3⟩ := ih k (List.mem_of_getElem? hi) (hne.2 k (List.mem_of_getElem? hi))
+    refine ⟨[] :: L.map (i :: ·), ?_, ?_, ?_⟩
+    · rw [List.nodup_cons]
+      refine ⟨by simp, nodup_map_of_inj _ (fun a b e => by simpa using e) L hL1⟩
+    · simp [height, hk, hL2]; omega
+    · intro q hq
+      rcases List.mem_cons.1 hq with rfl | hq
+      · cases ks with
+        | nil => exact absurd rfl hks
+        | cons k0 ks0 => simp [isCons, get?]
+      · obtain ⟨q', hq', rfl⟩ := List.mem_map.1 hq
+        rw [isCons_cons f ks i k q' hi]
+        exact hL3 q' hq'
+
+theorem height_le_consList (t : Tree) (hne : t.noEmpty = true) : height t ≤ (consList t).length := by
+  obtain ⟨L, h1, h2, h3⟩ := height_chain t hne
+  have hsub : L ⊆ (consList t).map (·.1) := by
+    intro q hq
+    obtain ⟨f, k, ks, hg⟩ := get?_of_isCons t q (h3 q hq)
+    exact List.mem_map.2 ⟨(q, node f (k :: ks)), (mem_consList t _).2 ⟨f, k, ks, hg, rfl⟩, rfl⟩
+  have := h1.length_le_of_subset hsub
+  rw [List.length_map] at this
+  omega
+
+
+/-! ### looking a token up -/
+
+theorem zipIdx_find (id : TokEnt → Str) : ∀ (L : List TokEnt) (k i : Nat) (x : TokEnt), (L.map id).Nodup → L[i]? = some x →
+    (L.zipIdx k).find? (fun y => id y.1 == id x) = some (x, k + i)
+  | [], _, _, _, _, h => by simp at h
+  | a :: L, k, 0, x, _, h => by
+    simp only [List.getElem?_cons_zero, Option.some.injEq] at h
+    subst h
+    simp [List.zipIdx_cons]
+  | a :: L, k, i + 1, x, hn, h => by
+    simp only [List.getElem?_cons_succ] at h
+    rw [List.map_cons, List.nodup_cons] at hn
+    have hne : (id a == id x) = false := by
+      rw [beq_eq_false_iff_ne]
+      intro e
+      exact hn.1 (e ▸ List.mem_map.2 ⟨x, List.mem_of_getElem? h, rfl⟩)
+    rw [List.zipIdx_cons, List.find?_cons_of_neg (by simp [hne]), zipIdx_find id L (k + 1) i x hn.2 h]
+    congr 2; omega
+
+theorem terminals_num (t : Tree) (hwf : WF t = true) : t.terminals.map num = List.range' 1 t.leafNums.length :=
+  TT.Props.C19.yield_of_WF t hwf
+
+theorem tokIds_nodup (t : Tree) (hwf : WF t = true) : ((t.terminals.map tokEnt).map (·.1)).Nodup := by
+  have : (t.terminals.map tokEnt).map (·.1) = (t.terminals.map num).map natToStr := by
+    simp only [List.map_map]; rfl
+  rw [this, terminals_num t hwf]
+  exact nodup_map_of_inj _ (fun a b e => natToStr_inj e) _ List.nodup_range'
+
+theorem mem_leaves_of_get? : ∀ (p : Path) (t : Tree) (n : Nat) (f : Fields), get? t p = some (leaf n f) → leaf n f ∈ leaves t
+  | [], t, n, f, h => by
+    simp only [get?, Option.some.injEq] at h; subst h; simp [leaves]
+  | i :: p, .leaf _ _, n, f, h => by simp [get?] at h
+  | i :: p, .node f0 ks, n, f, h => by
+    simp only [get?] at h
+    cases hk : ks[i]? with
+    | none => simp [hk] at h
+    | some k =>
+      simp only [hk] at h
+      rw [leaves_node]
+      exact List.mem_flatMap.2 ⟨k, List.mem_of_getElem? hk, mem_leaves_of_get? p k n f h⟩
+
+/-- the token table finds a token by its number; its position is the number minus one -/
+theorem tok_find (t : Tree) (hwf : WF t = true) (n : Nat) (f : Fields) (hx : leaf n f ∈ leaves t) :
+    ∃ i, i + 1 = n ∧ (t.terminals.map tokEnt).zipIdx.find? (fun y => y.1.1 == natToStr n) = some (tokEnt (leaf n f), i) := by
+  have hm : leaf n f ∈ t.terminals := (mem_sortBy _ _ _).2 hx
+  obtain ⟨i, hi⟩ := List.mem_iff_getElem?.1 hm
+  have h1 : (t.terminals.map num)[i]? = some n := by rw [List.getElem?_map, hi]; rfl
+  rw [terminals_num t hwf] at h1
+  have hin : i + 1 = n := by
+    obtain ⟨hlt, hv⟩ := List.getElem?_eq_some_iff.1 h1
+    rw [List.getElem_range'] at hv
+    omega
+  refine ⟨i, hin, ?_⟩
+  have h2 : (t.terminals.map tokEnt)[i]? = some (tokEnt (leaf n f)) := by rw [List.getElem?_map, hi]; rfl
+  have := zipIdx_find (·.1) _ 0 i _ (tokIds_nodup t hwf) h2
+  rw [Nat.zero_add] at this
+  exact this
+
+theorem tok_find_none (t : Tree) (hwf : WF t = true) (m : Nat) (hm : m = 0 ∨ t.leafNums.length < m) :
+    (t.terminals.map tokEnt).zipIdx.find? (fun y => y.1.1 == natToStr m) = none := by
+  rw [List.find?_eq_none]
+  intro y hy hp
+  have hy' := List.mem_zipIdx_iff_getElem?.1 hy
+  obtain ⟨l, hl, hly⟩ := List.mem_map.1 (List.mem_of_getElem? hy')
+  have he : natToStr l.num = natToStr m := by
+    have := beq_iff_eq.1 hp
+    rw [← hly] at this
+    exact this
+  have hnum := natToStr_inj he
+  have : l.num ∈ t.terminals.map num := List.mem_map.2 ⟨l, hl, rfl⟩
+  rw [terminals_num t hwf, List.mem_range'_1] at this
+  omega
+
+/-! ### looking a constituent up -/
+
+theorem consList_fun (t : Tree) (ps qs : Path × Tree) (hp : ps ∈ consList t) (hq : qs ∈ consList t) (e : ps.1 = qs.1) : ps = qs := by
+  obtain ⟨f, k, ks, h1, h2⟩ := (mem_consList t ps).1 hp
+  obtain ⟨f', k', ks', h1', h2'⟩ := (mem_consList t qs).1 hq
+  rw [e, h1'] at h1
+  simp only [Option.some.injEq] at h1
+  cases ps; cases qs
+  simp only at e h2 h2' h1
+  rw [e, h2, h2', h1]
+
+theorem nt_find (t : Tree) (hwf : WF t = true) (hlen : t.leafNums.length < 500) (ps : Path × Tree) (hps : ps ∈ consList t) :
+    ((consList t).map (ntEnt t)).find? (fun x => x.1 == natToStr (numOf t ps.1)) = some (ntEnt t ps) := by
+  apply find?_unique
+  · exact List.mem_map.2 ⟨ps, hps, rfl⟩
+  · simp [ntEnt]
+  · intro b hb hpb
+    obtain ⟨qs, hqs, rfl⟩ := List.mem_map.1 hb
+    have e : numOf t qs.1 = numOf t ps.1 := natToStr_inj (beq_iff_eq.1 hpb)
+    obtain ⟨f, k, ks, h1, _⟩ := (mem_consList t ps).1 hps
+    obtain ⟨f', k', ks', h1', _⟩ := (mem_consList t qs).1 hqs
+    have := numOf_inj t hwf hlen qs.1 ps.1 _ _ h1' h1 e
+    rw [consList_fun t qs ps hqs hps this]
+
+
+/-! ### the edges of the table -/
+
+theorem edgeOfL_eq (ntList : List NtEnt) (id : Str) :
+    edgeOfL ntList id = ntList.findSome? (fun x => (x.2.2.find? (fun e => e.2 == id)).map (·.1)) := rfl
+
+theorem edgeOfL_none (ntList : List NtEnt) (id : Str) (h : ∀ x ∈ ntList, ∀ e ∈ x.2.2, e.2 ≠ id) : edgeOfL ntList id = none := by
+  rw [edgeOfL_eq, List.findSome?_eq_none_iff]
+  intro x hx
+  rw [Option.map_eq_none_iff, List.find?_eq_none]
+  intro e he hp
+  exact h x hx e he (beq_iff_eq.1 hp)
+
+theorem edgeOfL_some : ∀ (ntList : List NtEnt) (id L : Str), (∃ x ∈ ntList, ∃ e ∈ x.2.2, e.2 = id) →
+    (∀ x ∈ ntList, ∀ e ∈ x.2.2, e.2 = id → e.1 = L) → edgeOfL ntList id = some L
+  | [], _, _, hex, _ => by obtain ⟨x, hx, _⟩ := hex; simp at hx
+  | x :: rest, id, L, hex, hall => by
+    rw [edgeOfL_eq, List.findSome?_cons]
+    cases hf : x.2.2.find? (fun e => e.2 == id) with
+    | some e =>
+      have h1 := List.mem_of_find?_eq_some hf
+      have h2 : e.2 = id := beq_iff_eq.1 (List.find?_some (p := fun (e : Str × Str) => e.2 == id) hf)
+      simp only [Option.map_some, hall x (by simp) e h1 h2]
+    | none =>
+      simp only [Option.map_none]
+      rw [← edgeOfL_eq]
+      apply edgeOfL_some rest id L
+      · obtain ⟨y, hy, e, he, hid⟩ := hex
+        rcases List.mem_cons.1 hy with rfl | hy
+        · rw [List.find?_eq_none] at hf
+          exact absurd (by simpa using hid) (hf e he)
+        · exact ⟨y, hy, e, he, hid⟩
+      · exact fun y hy => hall y (by simp [hy])
+
+theorem mem_childOrder (s : Tree) (i : Nat) : i ∈ childOrder s ↔ i < s.kids.length := by
+  unfold childOrder
+  rw [(orderedIdx_perm s.kids).mem_iff, List.mem_range]
+
+theorem edgeLab_some (k : Tree) : edgeLab (some k) = k.fields.edge.getD DEFAULT_EDGE := rfl
+
+theorem edgeRef_some (t : Tree) (p : Path) (i : Nat) (k : Tree) (h : get? t (p ++ [i]) = some k) :
+    edgeRef t p i (some k) = numOf t (p ++ [i]) := by
+  cases k with
+  | leaf n f => exact (leaf_num t _ n f h).symm
+  | node f ks => rfl
+
+/-- every edge of the table points from a constituent to one of its children -/
+theorem edge_mem (t : Tree) (ps : Path × Tree) (hps : ps ∈ consList t) (e : Str × Str) (he : e ∈ (ntEnt t ps).2.2) :
+    ∃ i k, get? t (ps.1 ++ [i]) = some k ∧ e = (k.fields.edge.getD DEFAULT_EDGE, natToStr (numOf t (ps.1 ++ [i]))) := by
+  obtain ⟨f, k0, ks, h1, h2⟩ := (mem_consList t ps).1 hps
+  obtain ⟨i, hi, rfl⟩ := List.mem_map.1 he
+  have hlt := (mem_childOrder ps.2 i).1 hi
+  have hk : ps.2.kids[i]? = some ps.2.kids[i] := List.getElem?_eq_getElem hlt
+  have hg : get? t (ps.1 ++ [i]) = some ps.2.kids[i] := by
+    rw [TT.Lemmas.Trans.get?_concat, h1, ← h2]; exact hk
+  refine ⟨i, ps.2.kids[i], hg, ?_⟩
+  rw [hk, edgeLab_some, edgeRef_some t ps.1 i _ hg]
+
+/-- every non-root node is the target of an edge of its parent's entry -/
+theorem edge_exists (t : Tree) (p : Path) (i : Nat) (k : Tree) (h : get? t (p ++ [i]) = some k) :
+    ∃ ps ∈ consList t, ps.1 = p ∧ (k.fields.edge.getD DEFAULT_EDGE, natToStr (numOf t (p ++ [i]))) ∈ (ntEnt t ps).2.2 := by
+  obtain ⟨f, ks, hp, hki⟩ := TT.Lemmas.Trans.get?_concat_some h
+  cases ks with
+  | nil => simp at hki
+  | cons k0 ks0 =>
+    refine ⟨(p, node f (k0 :: ks0)), (mem_consList t _).2 ⟨f, k0, ks0, hp, rfl⟩, rfl, ?_⟩
+    have hlt : i < (node f (k0 :: ks0)).kids.length := by
+      have := (List.getElem?_eq_some_iff.1 hki).1
+      exact this
+    refine List.mem_map.2 ⟨i, (mem_childOrder _ i).2 hlt, ?_⟩
+    have hk : (node f (k0 :: ks0)).kids[i]? = some k := hki
+    simp only [hk, edgeLab_some, edgeRef_some t p i k h]
+
+theorem edgeOf_child (t : Tree) (hwf : WF t = true) (hlen : t.leafNums.length < 500) (p : Path) (i : Nat) (k : Tree)
+    (h : get? t (p ++ [i]) = some k) :
+    edgeOfL ((consList t).map (ntEnt t)) (natToStr (numOf t (p ++ [i]))) = some (k.fields.edge.getD DEFAULT_EDGE) := by
+  apply edgeOfL_some
+  · obtain ⟨ps, hps, _, he⟩ := edge_exists t p i k h
+    exact ⟨ntEnt t ps, List.mem_map.2 ⟨ps, hps, rfl⟩, _, he, rfl⟩
+  · intro x hx e he hid
+    obtain ⟨qs, hqs, rfl⟩ := List.mem_map.1 hx
+    obtain ⟨j, k', hg, rfl⟩ := edge_mem t qs hqs e he
+    have hn : numOf t (qs.1 ++ [j]) = numOf t (p ++ [i]) := natToStr_inj hid
+    have hpq := numOf_inj t hwf hlen _ _ _ _ hg h hn
+    rw [hpq, h] at hg
+    simp only [Option.some.injEq] at hg
+    rw [hg]
+
+theorem edgeOf_root (t : Tree) (hwf : WF t = true) (hlen : t.leafNums.length < 500) :
+    edgeOfL ((consList t).map (ntEnt t)) (natToStr (numOf t [])) = none := by
+  apply edgeOfL_none
+  intro x hx e he hid
+  obtain ⟨qs, hqs, rfl⟩ := List.mem_map.1 hx
+  obtain ⟨j, k', hg, rfl⟩ := edge_mem t qs hqs e he
+  have hn : numOf t (qs.1 ++ [j]) = numOf t [] := natToStr_inj hid
+  have := numOf_inj t hwf hlen _ _ _ _ hg (show get? t [] = some t from rfl) hn
+  simp at this
+
+/-- exactly one entry of the table is nobody's child: the root -/
+theorem roots_eq (t : Tree) (hwf : WF t = true) (hlen : t.leafNums.length < 500) :
+    ((consList t).map (ntEnt t)).filter (fun x => (edgeOfL ((consList t).map (ntEnt t)) x.1).isNone) = [ntEnt t ([], t)] := by
+  obtain ⟨f, k, ks, hroot⟩ := get?_of_isCons t [] (WF_root t hwf).1
+  simp only [get?, Option.some.injEq] at hroot
+  obtain ⟨init, hi1, hi2⟩ := consList_root f k ks
+  rw [← hroot] at hi1
+  have hinit : ∀ x ∈ init.map (ntEnt t), (edgeOfL ((consList t).map (ntEnt t)) x.1).isNone = false := by
+    intro x hx
+    obtain ⟨ps, hps, rfl⟩ := List.mem_map.1 hx
+    have hmem : ps ∈ consList t := by rw [hi1]; exact List.mem_append_left _ hps
+    obtain ⟨f', k', ks', hg, _⟩ := (mem_consList t ps).1 hmem
+    have hne := hi2 ps hps
+    have hsplit := (List.dropLast_concat_getLast hne).symm
+    rw [hsplit] at hg
+    have := edgeOf_child t hwf hlen _ _ _ hg
+    rw [← hsplit] at this
+    show (edgeOfL _ (natToStr (numOf t ps.1))).isNone = false
+    rw [this]; rfl
+  have hlast : (edgeOfL ((consList t).map (ntEnt t)) (ntEnt t ([], t)).1).isNone = true := by
+    show (edgeOfL _ (natToStr (numOf t []))).isNone = true
+    rw [edgeOf_root t hwf hlen]; rfl
+  conv => lhs; arg 2; rw [hi1]
+  rw [List.map_append, List.filter_append, filter_none _ _ hinit, List.map_cons, List.map_nil, List.nil_append]
+  exact filter_all _ _ (fun a ha => by rw [List.mem_singleton.1 ha]; exact hlast)
+
+
+/-! ### the recursive rebuild -/
+
+theorem build_succ (toks : List TokEnt) (ntList : List NtEnt) (edgeOf : Str → Option Str) (fuel : Nat) (id : Str) :
+    decTiger.build toks ntList edgeOf (fuel + 1) id =
+      match toks.zipIdx.find? (fun x => x.1.1 == id) with
+      | some x =>
+        some (leaf (x.2 + 1) { label := x.1.2.2.2.1, word := some x.1.2.1, lemma := some x.1.2.2.1, morph := some x.1.2.2.2.2, edge := some ((edgeOf id).getD DEFAULT_EDGE) })
+      | none =>
+        match ntList.find? (fun x => x.1 == id) with
+        | some x =>
+          (x.2.2.mapM fun (e : Str × Str) => decTiger.build toks ntList edgeOf fuel e.2).map fun ks =>
+            node { label := x.2.1, edge := some ((edgeOf id).getD DEFAULT_EDGE) } ks
+        | none => none := by
+  rw [decTiger.build]
+  have : (fun (x : TokEnt × Nat) => match x with | (x, _) => x.1 == id) = (fun x => x.1.1 == id) := rfl
+  rw [this]
+  cases toks.zipIdx.find? (fun x => x.1.1 == id) with
+  | some x => rfl
+  | none =>
+    simp only
+    cases ntList.find? (fun x => x.1 == id) with
+    | some x => rfl
+    | none => rfl
+
+theorem carryTigerL_eq : ∀ ks : List Tree, carryTigerL ks = ks.map carryTiger
+  | [] => rfl
+  | t :: ts => by simp [carryTigerL, carryTigerL_eq ts]
+
+theorem leafNums_carryTiger (x : Tree) : (carryTiger x).leafNums = x.leafNums := by
+  induction x using tree_ind with
+  | hl n f => simp [carryTiger, leafNums_leaf]
+  | hn f ks ih =>
+    rw [carryTiger, leafNums_node, leafNums_node, carryTigerL_eq, List.flatMap_map]
+    exact flatMap_congr' _ _ ks ih
+
+theorem leftmost_sortKids_carryTiger (k : Tree) : leftmost (sortKids (carryTiger k)) = leftmost k := by
+  apply leftmost_of_perm
+  have := leafNums_sortKids (carryTiger k)
+  rwa [leafNums_carryTiger] at this
+
+theorem mapM_exists_map {ι α β γ : Type} (w : ι → α) (g : α → Option β) (φ : β → γ) (F : ι → γ) :
+    ∀ l : List ι, (∀ i ∈ l, ∃ b, g (w i) = some b ∧ φ b = F i) → ∃ bs, (l.map w).mapM g = some bs ∧ bs.map φ = l.map F
+  | [], _ => ⟨[], rfl, rfl⟩
+  | i :: l, h => by
+    obtain ⟨b, hb1, hb2⟩ := h i (by simp)
+    obtain ⟨bs, hbs1, hbs2⟩ := mapM_exists_map w g φ F l (fun j hj => h j (by simp [hj]))
+    refine ⟨b :: bs, ?_, by simp [hb2, hbs2]⟩
+    simp only [List.map_cons, List.mapM_cons, hb1, hbs1]
+    rfl
+
+theorem range_map_getElem? {α β : Type} (G : α → β) (d : β) : ∀ ks : List α,
+    (List.range ks.length).map (fun i => (ks[i]?.map G).getD d) = ks.map G
+  | [] => rfl
+  | k :: ks => by
+    rw [List.length_cons, List.range_succ_eq_map, List.map_cons, List.map_map, List.map_cons]
+    congr 1
+    exact range_map_getElem? G d ks
+
+/-- the leaf case: a token is rebuilt with all its fields -/
+theorem build_leaf (t : Tree) (hwf : WF t = true) (p : Path) (n : Nat) (f : Fields) (h : get? t p = some (leaf n f))
+    (NT : List NtEnt) (E : Str → Option Str) (fuel : Nat)
+    (hE : (E (natToStr (numOf t p))).getD DEFAULT_EDGE = f.edge.getD DEFAULT_EDGE) :
+    decTiger.build (t.terminals.map tokEnt) NT E (fuel + 1) (natToStr (numOf t p)) = some (carryTiger (leaf n f)) := by
+  rw [build_succ, leaf_num t p n f h]
+  obtain ⟨i, hi, hfind⟩ := tok_find t hwf n f (mem_leaves_of_get? p t n f h)
+  rw [hfind]
+  rw [leaf_num t p n f h] at hE
+  simp only [hE, hi, tokEnt, carryTiger, Tree.fields, Tree.num, dflt, lit_dd]
+
+
+theorem sortBy_childOrder (ks : List Tree) (G : Tree → Tree) (d : Tree) (hG : ∀ k, leftmost (G k) = leftmost k)
+    (hn : (ks.map leftmost).Nodup) :
+    sortBy leftmost ((orderedIdx ks).map (fun i => (ks[i]?.map G).getD d)) = sortBy leftmost (ks.map G) := by
+  symm
+  apply sortBy_perm_eq
+  · have := (orderedIdx_perm ks).map (fun i => (ks[i]?.map G).getD d)
+    rw [range_map_getElem?] at this
+    exact this.symm
+  · rw [List.map_map]
+    have : (leftmost ∘ G) = leftmost := funext hG
+    rw [this]; exact hn
+
+/-- MAIN LEMMA: the subtree at a valid path is rebuilt, up to the storage order of children -/
+theorem build_ok (t : Tree) (hwf : WF t = true) (hlen : t.leafNums.length < 500) :
+    ∀ (s : Tree) (p : Path) (fuel : Nat), get? t p = some s → height s < fuel →
+      (edgeOfL ((consList t).map (ntEnt t)) (natToStr (numOf t p))).getD DEFAULT_EDGE = s.fields.edge.getD DEFAULT_EDGE →
+      ∃ d, decTiger.build (t.terminals.map tokEnt) ((consList t).map (ntEnt t)) (edgeOfL ((consList t).map (ntEnt t))) fuel
+              (natToStr (numOf t p)) = some d ∧ sortKids d = sortKids (carryTiger s) := by
+  intro s
+  induction s using tree_ind with
+  | hl n f =>
+    intro p fuel hg hf hE
+    cases fuel with
+    | zero => omega
+    | succ fu => exact ⟨_, build_leaf t hwf p n f hg _ _ fu hE, rfl⟩
+  | hn f ks ih =>
+    intro p fuel hg hf hE
+    cases fuel with
+    | zero => omega
+    | succ fu =>
+      rcases node_kinds t hwf p _ hg with ⟨n, f', e, _⟩ | ⟨f', k, ks', e, _, _, hv⟩
+      · cases e
+      · have hps : (p, node f ks) ∈ consList t := (mem_consList t _).2 ⟨f', k, ks', by rw [← e]; exact hg, e⟩
+        have hnone := tok_find_none t hwf (numOf t p) (by omega)
+        have hsome := nt_find t hwf hlen _ hps
+        obtain ⟨ds, hds1, hds2⟩ := mapM_exists_map
+          (fun i => (edgeLab (node f ks).kids[i]?, natToStr (edgeRef t p i (node f ks).kids[i]?)))
+          (fun (e : Str × Str) => decTiger.build (t.terminals.map tokEnt) ((consList t).map (ntEnt t))
+            (edgeOfL ((consList t).map (ntEnt t))) fu e.2)
+          sortKids (fun i => (ks[i]?.map (fun k => sortKids (carryTiger k))).getD (leaf 0 {}))
+          (childOrder (node f ks)) (by
+            intro i hi
+            have hlt : i < ks.length := (mem_childOrder _ i).1 hi
+            have hk : ks[i]? = some ks[i] := List.getElem?_eq_getElem hlt
+            have hgi : get? t (p ++ [i]) = some ks[i] := by
+              rw [TT.Lemmas.Trans.get?_concat, hg]; exact hk
+            have hh : height ks[i] < fu := by
+              have := height_le_heightL ks ks[i] (List.getElem_mem hlt)
+              simp only [height] at hf
+              omega
+            obtain ⟨d, hd1, hd2⟩ := ih ks[i] (List.getElem_mem hlt) (p ++ [i]) fu hgi hh (by
+              rw [edgeOf_child t hwf hlen p i _ hgi]; rfl)
+            refine ⟨d, ?_, ?_⟩
+            · show decTiger.build _ _ _ fu (natToStr (edgeRef t p i ks[i]?)) = some d
+              rw [hk, edgeRef_some t p i _ hgi]; exact hd1
+            · rw [hd2, hk]; rfl)
+        refine ⟨node { label := f.label, edge := some ((edgeOfL ((consList t).map (ntEnt t)) (natToStr (numOf t p))).getD DEFAULT_EDGE) } ds, ?_, ?_⟩
+        · rw [build_succ, hnone]
+          simp only []
+          have : ((consList t).map (ntEnt t)).find? (fun x => x.1 == natToStr (numOf t p)) = some (ntEnt t (p, node f ks)) := hsome
+          rw [this]
+          simp only []
+          have hes : (ntEnt t (p, node f ks)).2.2 = (childOrder (node f ks)).map
+              (fun i => (edgeLab (node f ks).kids[i]?, natToStr (edgeRef t p i (node f ks).kids[i]?))) := rfl
+          rw [hes, hds1]
+          rfl
+        · have hne := noEmpty_get? p t _ (WF_noEmpty t hwf) hg
+          have hnd : (ks.map leftmost).Nodup := by
+            apply map_leftmost_nodup
+            · intro k' hk'
+              exact noEmpty_leafNums_ne_nil k' ((noEmpty_node f ks).1 hne |>.2 k' hk')
+            · rw [← leafNums_node f]
+              exact (TT.Lemmas.Trans.leafNums_sublist_get? p t _ hg).nodup (WF_nodup t hwf)
+          rw [hE]
+          simp only [sortKids, carryTiger, sortKidsL_eq, carryTigerL_eq, hds2, List.map_map, Tree.fields]
+          congr 1
+          exact sortBy_childOrder ks (fun k => sortKids (carryTiger k)) (leaf 0 {}) leftmost_sortKids_carryTiger hnd
+
 end TT.Lemmas.TigerRT
